@@ -89,14 +89,20 @@ Theorem C04_refuted_altcycle :
     ~ iso (dst s2) r' (heap_of altcycle_heap) 0.
 Proof. exact refuted_altcycle. Qed.
 
-(* outside the fragment: a class two levels below an alternatively mapped class whose mapping renames a column (finding C04-d):
-   from_dao consults only the immediate base DAO for an alternative parent, the column comes back as the default:
-   codec_ok fails, no mapping object was handed out, and the result is not isomorphic *)
-Theorem C04_refuted_altgrandchild :
+(* regression example about the code BEFORE 96f6440 (finding C04-d, fixed): for a class two levels below an alternatively mapped
+   class whose mapping renames a column, from_dao consulted only the immediate base DAO for an alternative parent and the column came
+   back as the constructor default -- krrood's own column handling ([decg] with a non-empty table of lost columns) violated
+   codec_ok, and the result was not isomorphic.  With the empty table (the current code) the same heap lies in F04w. *)
+Example C04_regression_altgrandchild_old :
   wf_heap altgc_heap 0 = true /\ alts_ok altcycle_alts altgc_heap = true /\ codec_ok idc (decg altgc_gc) altgc_heap = false /\
   exists r' s2, round_trip idc (decg altgc_gc) altcycle_alts [12; 13]%Z altgc_heap 0 = Some (r', s2) /\ bad s2 = false /\
     ~ iso (dst s2) r' (heap_of altgc_heap) 0.
 Proof. exact refuted_altgrandchild. Qed.
+
+Example C04_altgrandchild_now_inside :
+  F04w idc (decg []) altcycle_alts [12; 13]%Z altgc_heap 0 = true /\
+  model_canon altcycle_alts [12; 13]%Z [] altgc_heap 0 = spec_canon altgc_heap 0.
+Proof. split; vm_compute; reflexivity. Qed.
 
 (* regression example about the code BEFORE 32013a0 (no keep_alive in FromDAOState): nothing is pinned, the recycled
    address is admissible, and the second from_dao returns the first row's object *)
@@ -127,4 +133,3 @@ Print Assumptions C04_state_reuse_scenario_excluded.
 Print Assumptions C04_iso_bijection.
 Print Assumptions C04_canon_sound.
 Print Assumptions C04_refuted_altcycle.
-Print Assumptions C04_refuted_altgrandchild.
